@@ -1,6 +1,245 @@
-(* Props/C18.v -- placeholder while the correspondence is brought up *)
-From Coq Require Import List.
-From V Require Import Base.UString Model.Store.
-Theorem placeholder_c18 : forall (a : vkey), vkey_eqb VNone VNone = true.
-Proof. intros; reflexivity. Qed.
-Print Assumptions placeholder_c18.
+(* Props/C18.v -- property C18: a composite source answers as the de-duplicated
+   union of its members; relationship navigation equals a scan of the stored
+   relationship objects.
+
+   Only statements here; proofs are in Proofs/StoreComposite.v and
+   Proofs/StoreNav.v.  The model is Model/Store.v (sources as records of their
+   five methods, CompositeDataSource, DataSource navigation, Environment
+   wiring), tied to stix2/datastore/__init__.py, stix2/utils.py and
+   stix2/environment.py by the correspondence run of every check.
+     ver_of o      obj.get("modified") or obj.get("created")
+     dkey_of o     the key deduplicate() uses: id, or (id, version)
+     newest_of l r r is an element of l with the greatest version (None iff l = [])
+     sound_src own m   whatever m returns satisfies the filters handed to it, its own, and the query
+     rel_scan P a rt so to   the relationships of population P that involve a (what a scan gives)
+     neighbour rels a i      i is the other end of one of rels
+     scans qf P / answers qf P   the query function returns filter q P / the same objects in some order  *)
+From Coq Require Import NArith ZArith List Bool Permutation.
+From V Require Import Base.UString Model.Store Model.StoreRun Spec.StoreSpec
+  Proofs.StoreBase Proofs.StoreMem Proofs.StoreFs Proofs.StoreAgree Proofs.StoreComposite Proofs.StoreNav.
+Import ListNotations.
+Open Scope list_scope.
+
+(* ---- lookup by id ---- *)
+
+(* any members, any attached filters: for every order of attachment the composite returns an answer of a member
+   with the greatest version, and the version does not depend on the order *)
+Theorem cget_newest_any_order : forall (af : list sfilter) (ms ms' : list source) (cf : list sfilter) (id : ustring)
+    (rs : list (option obj)),
+  ms <> [] -> Permutation ms ms' ->
+  collect (fun m => s_get m (af ++ cf) id) ms = Ok rs ->
+  versioned_all (somes rs) ->
+  exists r r', cget af ms cf id = Ok r /\ cget af ms' cf id = Ok r' /\
+    newest_of (somes rs) r /\ option_map ver_of r = option_map ver_of r'.
+Proof. exact cget_any_order. Qed.
+Print Assumptions cget_newest_any_order.
+
+(* objects without modified and created (SCOs): the copy of the last member that has one *)
+Theorem cget_unversioned_last : forall (l : list obj) (cur : option (obj * vkey)),
+  (forall o, In o l -> ver_of o = VNone) ->
+  cget_loop cur l = Ok match rev l with
+                       | [] => match cur with Some (o, _) => Some o | None => None end
+                       | o :: _ => Some o
+                       end.
+Proof. exact cget_loop_unversioned. Qed.
+Print Assumptions cget_unversioned_last.
+
+(* members that are memory stores with histories Ls (property C11's domain): the newest version of the id over
+   the union of all histories *)
+Theorem composite_get_newest_of_union : forall mode iot (Ls : list (list obj)) (id : ustring),
+  Ls <> [] ->
+  Forall (fun L => Forall clean (map (norm_obj mode iot) L) /\ uniform (map (norm_obj mode iot) L)) Ls ->
+  (forall o, In o (union_of mode iot Ls) -> exists t, omod o = VInst t) ->
+  exists r, cget [] (mem_members mode iot Ls) [] id = Ok r /\
+    match r with
+    | Some o => In o (union_of mode iot Ls) /\ oid o = id /\
+                forall o', In o' (union_of mode iot Ls) -> oid o' = id -> v_ge (omod o) (omod o')
+    | None => versions id (union_of mode iot Ls) = []
+    end.
+Proof. exact composite_get_newest. Qed.
+Print Assumptions composite_get_newest_of_union.
+
+Theorem composite_get_member_order : forall mode iot (Ls Ls' : list (list obj)) (id : ustring),
+  Permutation Ls Ls' -> Ls <> [] ->
+  Forall (fun L => Forall clean (map (norm_obj mode iot) L) /\ uniform (map (norm_obj mode iot) L)) Ls ->
+  (forall o, In o (union_of mode iot Ls) -> exists t, omod o = VInst t) ->
+  exists r r', cget [] (mem_members mode iot Ls) [] id = Ok r /\ cget [] (mem_members mode iot Ls') [] id = Ok r' /\
+               option_map omod r = option_map omod r'.
+Proof. exact composite_get_any_order. Qed.
+Print Assumptions composite_get_member_order.
+
+(* ---- all_versions and query: each distinct (id, version) once ---- *)
+
+Theorem deduplicate_spec : forall l : list obj,
+  (forall o, In o (dedupe l) -> In o l) /\
+  (forall o, In o l -> exists o', In o' (dedupe l) /\ dkey_of o' = dkey_of o) /\
+  NoDup (map dkey_of (dedupe l)).
+Proof. exact dedupe_spec. Qed.
+Print Assumptions deduplicate_spec.
+
+Theorem call_distinct_once : forall (af : list sfilter) (ms : list source) (cf : list sfilter) (id : ustring)
+    (rs : list (list obj)),
+  ms <> [] -> collect (fun m => s_all m (af ++ cf) id) ms = Ok rs ->
+  exists res, call af ms cf id = Ok res /\
+    (forall o, In o res -> exists r, In r rs /\ In o r) /\
+    (forall r o, In r rs -> In o r -> exists o', In o' res /\ dkey_of o' = dkey_of o) /\
+    NoDup (map dkey_of res).
+Proof. exact call_distinct_once_l. Qed.
+Print Assumptions call_distinct_once.
+
+Theorem cquery_distinct_once : forall (af : list sfilter) (ms : list source) (cf q : list sfilter) (rs : list (list obj)),
+  ms <> [] -> collect (fun m => s_query m (af ++ cf) q) ms = Ok rs ->
+  exists res, cquery af ms cf q = Ok res /\
+    (forall o, In o res -> exists r, In r rs /\ In o r) /\
+    (forall r o, In r rs -> In o r -> exists o', In o' res /\ dkey_of o' = dkey_of o) /\
+    NoDup (map dkey_of res).
+Proof. exact cquery_distinct_once_l. Qed.
+Print Assumptions cquery_distinct_once.
+
+(* memory-store members with attached filters, a composite with attached filters: exactly the members' stored
+   objects that pass the query, their member's filters and the composite's; each (id, version) once *)
+Theorem cquery_memory_members : forall mode iot (afs : list (list sfilter * list obj)) (af q : list sfilter),
+  afs <> [] ->
+  exists res, cquery af (map (fun p => mem_source (fst p) (mem_run mode iot (snd p))) afs) [] q = Ok res /\
+    NoDup (map dkey_of res) /\
+    (forall o, In o res -> exists p, In p afs /\ In o (mem_objs (mem_run mode iot (snd p))) /\
+                 all_hold q o = true /\ all_hold (fst p) o = true /\ all_hold af o = true) /\
+    (forall p o, In p afs -> In o (mem_objs (mem_run mode iot (snd p))) ->
+                 all_hold q o = true -> all_hold (fst p) o = true -> all_hold af o = true ->
+                 exists o', In o' res /\ dkey_of o' = dkey_of o).
+Proof. exact cquery_distinct_once_mem. Qed.
+Print Assumptions cquery_memory_members.
+
+(* ---- attached filters ---- *)
+
+Theorem store_sources_sound : forall (af : list sfilter) (m : mem) (s : fs),
+  sound_src af (mem_source af m) /\ sound_src af (fs_source af s).
+Proof. exact (fun af m s => conj (mem_source_sound (fun _ => None) af m) (fs_source_sound (fun _ => None) af s)). Qed.
+Print Assumptions store_sources_sound.
+
+(* filters attached to a composite (and those handed down to it) bound everything it returns, whatever its
+   members are -- stores, or composites of any depth *)
+Theorem composite_filters_reach_members : forall (rm : related_mode) (af : list sfilter) (ms : list source)
+    (owns : source -> list sfilter),
+  (forall m, In m ms -> sound_src (owns m) m) -> sound_src af (composite_source rm af ms).
+Proof. exact (Proofs.StoreComposite.composite_filters_reach_members (fun _ => None)). Qed.
+Print Assumptions composite_filters_reach_members.
+
+(* ---- navigation through a source or store ---- *)
+
+Theorem relationships_is_scan : forall (qf : queryfn) (P : list obj) (a : ustring) (rt : option ustring) (so to : bool),
+  scans qf P ->
+  relationships qf a rt so to = if so && to then Err EValue else Ok (rel_scan P a rt so to).
+Proof. exact relationships_scan. Qed.
+Print Assumptions relationships_is_scan.
+
+Theorem relationships_memory : forall (m : mem) (a : ustring) (rt : option ustring) (so to : bool),
+  s_rels (mem_source [] m) a rt so to = if so && to then Err EValue else Ok (rel_scan (mem_objs m) a rt so to).
+Proof. exact relationships_mem. Qed.
+Print Assumptions relationships_memory.
+
+(* related_to = the objects of the population, with multiplicity, that pass the extra filters and whose id is
+   the other end of a relationship of the scan *)
+Theorem related_is_scan : forall (qf : queryfn) (P : list obj) (a : ustring) (rt : option ustring) (so to : bool)
+    (fl : list sfilter),
+  scans qf P -> so && to = false ->
+  (forall r, In r (rel_scan P a rt so to) -> prop_get k_source_ref r <> None /\ prop_get k_target_ref r <> None) ->
+  exists (ids : list ustring) (res : list obj),
+    NoDup ids /\ (forall i, In i ids <-> neighbour (rel_scan P a rt so to) a i) /\
+    related_to (relationships qf) qf a rt so to fl = Ok res /\
+    Permutation res (filter (fun o => all_hold fl o && id_in ids o) P).
+Proof. exact related_scan_perm. Qed.
+Print Assumptions related_is_scan.
+
+Theorem related_memory : forall (m : mem) (a : ustring) (rt : option ustring) (so to : bool) (fl : list sfilter),
+  so && to = false ->
+  (forall r, In r (rel_scan (mem_objs m) a rt so to) -> prop_get k_source_ref r <> None /\ prop_get k_target_ref r <> None) ->
+  exists (ids : list ustring) (res : list obj),
+    NoDup ids /\ (forall i, In i ids <-> neighbour (rel_scan (mem_objs m) a rt so to) a i) /\
+    s_related (mem_source [] m) a rt so to fl = Ok res /\
+    Permutation res (filter (fun o => all_hold fl o && id_in ids o) (mem_objs m)).
+Proof. exact related_mem. Qed.
+Print Assumptions related_memory.
+
+(* any relationships method / query function with membership semantics (filesystem source, composite) *)
+Theorem related_membership : forall (relf : ustring -> option ustring -> bool -> bool -> res (list obj)) (qf : queryfn)
+    (P : list obj) (a : ustring) (rt : option ustring) (so to : bool) (fl : list sfilter) (rels : list obj),
+  relf a rt so to = Ok rels -> answers qf P ->
+  (forall r, In r rels -> prop_get k_source_ref r <> None /\ prop_get k_target_ref r <> None) ->
+  exists res, related_to relf qf a rt so to fl = Ok res /\
+    forall o, In o res <-> In o P /\ all_hold fl o = true /\ neighbour rels a (oid o).
+Proof. exact related_to_spec. Qed.
+Print Assumptions related_membership.
+
+Theorem navigation_filesystem : forall (ts2fn : Z -> ustring) (L : list obj) (s : fs) (a : ustring) (rt : option ustring)
+    (so to : bool) (fl : list sfilter),
+  FsInv ts2fn L s -> so && to = false ->
+  let P := map fobj s in
+  (forall r, In r (rel_scan P a rt so to) -> prop_get k_source_ref r <> None /\ prop_get k_target_ref r <> None) ->
+  exists rels res,
+    s_rels (fs_source [] s) a rt so to = Ok rels /\ (forall r, In r rels <-> In r (rel_scan P a rt so to)) /\
+    s_related (fs_source [] s) a rt so to fl = Ok res /\
+    (forall o, In o res <-> In o P /\ all_hold fl o = true /\ neighbour (rel_scan P a rt so to) a (oid o)).
+Proof. exact navigation_fs. Qed.
+Print Assumptions navigation_filesystem.
+
+Theorem creator_is_lookup : forall (src : source) (o : obj),
+  creator_of src o = match prop_get k_created_by_ref o with
+                     | Some (c :: r) => s_get src [] (c :: r)
+                     | _ => Ok None
+                     end.
+Proof. exact creator_lookup. Qed.
+Print Assumptions creator_is_lookup.
+
+Theorem creator_memory : forall mode iot (L : list obj) (o : obj) (cid : ustring),
+  prop_get k_created_by_ref o = Some cid -> cid <> [] ->
+  creator_of (mem_source [] (mem_run mode iot L)) o = Ok (mem_get [] cid (mem_run mode iot L)).
+Proof. exact creator_mem. Qed.
+Print Assumptions creator_memory.
+
+(* an Environment reads through a composite over store.source and source: everything above applies to it *)
+Theorem environment_is_composite : forall (rm : related_mode) (af : list sfilter) (ms : list source),
+  env_source rm af ms = composite_source rm af ms.
+Proof. reflexivity. Qed.
+Print Assumptions environment_is_composite.
+
+(* ---- related_to through a composite ---- *)
+
+(* PerMember (the code as it is): each member navigates within its own data *)
+Theorem related_composite : forall (af : list sfilter) (ms : list source) (a : ustring) (rt : option ustring)
+    (so to : bool) (fl : list sfilter),
+  ms <> [] ->
+  crelated_to PerMember af ms a rt so to fl =
+  rbind (collect (fun m => s_related m a rt so to fl) ms) (fun rs => Ok (dedupe (concat rs))).
+Proof. exact Proofs.StoreNav.related_composite. Qed.
+Print Assumptions related_composite.
+
+(* ... which is not the scan of the union: a and rel(a -> b) in one member, b in another *)
+Theorem related_composite_vs_union_refuted : forall mode iot,
+  let m1 := mem_source [] (mem_run mode iot [x_oa; x_rel]) in
+  let m2 := mem_source [] (mem_run mode iot [x_ob]) in
+  let all := mem_source [] (mem_run mode iot [x_oa; x_rel; x_ob]) in
+  crelated_to PerMember [] [m1; m2] x_a None false false [] = Ok [] /\
+  crelationships [m1; m2] x_a None false false = Ok [x_rel] /\
+  cget [] [m1; m2] [] x_b = Ok (Some x_ob) /\
+  s_related all x_a None false false [] = Ok [x_ob] /\
+  crelated_to Federated [] [m1; m2] x_a None false false [] = Ok [x_ob].
+Proof. exact related_composite_vs_union_refuted_l. Qed.
+Print Assumptions related_composite_vs_union_refuted.
+
+(* Federated (repaired): navigation on the federation as a whole is the scan of the union of the members'
+   populations, copies of one (id, version) in several members being the same object *)
+Theorem related_federated_is_union_scan : forall (ms : list source) (Ps : list (list obj)) (a : ustring)
+    (rt : option ustring) (so to : bool) (fl : list sfilter),
+  ms <> [] -> Forall2 scan_member ms Ps -> so && to = false ->
+  let U := concat Ps in
+  (forall x y, In x U -> In y U -> dkey_of x = dkey_of y -> x = y) ->
+  (forall r, In r (rel_scan U a rt so to) -> prop_get k_source_ref r <> None /\ prop_get k_target_ref r <> None) ->
+  exists res, crelated_to Federated [] ms a rt so to fl = Ok res /\
+    forall o, In o res <-> In o U /\ all_hold fl o = true /\ neighbour (rel_scan U a rt so to) a (oid o).
+Proof. exact (related_federated_union (fun _ => None)). Qed.
+Print Assumptions related_federated_is_union_scan.
+
+(* ---- hypotheses are satisfiable ---- *)
+Example scan_member_inhabited : forall m : mem, scan_member (mem_source [] m) (mem_objs m).
+Proof. exact (mem_scan_member). Qed.
